@@ -64,6 +64,26 @@ LIST_MUTATORS = {'append', 'extend', 'insert', 'remove', 'pop', 'clear', 'sort',
                  '__delitem__', '__iadd__'}
 
 
+PATH_CTORS = ('pathlib.Path', 'Path', 'pathlib.PurePath', 'PurePath', 'pathlib.PosixPath', 'PosixPath')
+PATH_SINK_METHODS = {'exists', 'is_file', 'is_dir', 'read_text', 'read_bytes', 'stat', 'iterdir', 'glob', 'rglob', 'lstat', 'samefile'}
+PATH_KEEP_METHODS = {'resolve', 'absolute', 'expanduser', 'as_posix', 'with_suffix', 'with_name'}
+
+
+def is_cwd_expr(node):
+    """The expression denotes the process working directory: os.getcwd(), Path.cwd(), abspath('.') / abspath('') / abspath(os.curdir)."""
+    if not isinstance(node, ast.Call):
+        return False
+    d = dotted(node.func)
+    if d in ('os.getcwd', 'os.getcwdb', 'pathlib.Path.cwd', 'Path.cwd'):
+        return True
+    if d in ('os.path.abspath', 'os.path.realpath') + PATH_CTORS and len(node.args) == 1:
+        a = node.args[0]
+        return (isinstance(a, ast.Constant) and a.value in ('.', '', './')) or dotted(a) == 'os.curdir'
+    if d in PATH_CTORS and not node.args and not node.keywords:
+        return True         # Path() is Path('.')
+    return False
+
+
 def worst(kinds):
     kinds = [k for k in kinds if k != 'NoneK'] or ['NoneK']
     return max(kinds, key=ORDER.index)
@@ -724,6 +744,8 @@ class Prov:
                 return {'Literal'}
             if node.attr == '__dict__':
                 return {'ObjAttrs'}
+            if node.attr == 'parent' and not self.attr_stores().get('parent'):
+                return self._dirname_kinds(node.value, qual)               # pathlib
             base = self._kinds(node.value, qual)
             if 'CliArgs' in base:
                 return {'UserGiven'} | ({'Unknown'} if base - {'CliArgs', 'NoneK'} else set())
@@ -768,6 +790,8 @@ class Prov:
             for k in ks:
                 out |= k
             return out
+        if isinstance(node, ast.BinOp) and isinstance(node.op, ast.Div):
+            return self._join_kinds([node.left, node.right], qual)        # pathlib: directory / name
         if isinstance(node, ast.BinOp) and isinstance(node.op, ast.Mod):
             out = set(self._kinds(node.right, qual))
             return out or {'Literal'}
@@ -791,28 +815,27 @@ class Prov:
 
     def _call(self, node, qual):
         d = dotted(node.func)
+        if is_cwd_expr(node):
+            return {'CwdDir'}
+        if d in PATH_CTORS and node.args:
+            if len(node.args) == 1:
+                return set(self._kinds(node.args[0], qual))
+            return self._join_kinds(node.args, qual)
+        if d == 'map' and len(node.args) == 2 and dotted(node.args[0]) in PASS_CALLS:
+            return set(self._kinds(node.args[1], qual))
+        if isinstance(node.func, ast.Attribute) and not (d or '').startswith(('os.', 're.', 'struct.', 'copy.', 'sys.')):
+            if node.func.attr in PATH_KEEP_METHODS and not self.attr_stores().get(node.func.attr):
+                return set(self._kinds(node.func.value, qual))
+            if node.func.attr == 'joinpath' and node.args:
+                return self._join_kinds([node.func.value] + list(node.args), qual)
         if d == 'os.path.join' and node.args:
-            if any(isinstance(a, ast.Starred) for a in node.args):
-                return {'Unknown'}
-            first = self._kinds(node.args[0], qual)
-            out = set()
-            for k in first:
-                if k in DIRKINDS or k == 'Resolved':
-                    out.add('Resolved')
-                elif k != 'NoneK':
-                    out.add(k)          # the result lies wherever its first component lies
-            return out or {'NoneK'}
+            return self._join_kinds(node.args, qual)
         if d in PASS_CALLS:
             if not node.args:
                 return {'NoneK'}
             return set(self._kinds(node.args[0], qual))
         if d == 'os.path.dirname' and node.args:
-            out = set()
-            for k in self._kinds(node.args[0], qual):
-                out.add('AdjDir' if k in ('Resolved', 'UserGiven') else k)
-            return out
-        if d == 'os.getcwd':
-            return {'CwdDir'}
+            return self._dirname_kinds(node.args[0], qual)
         if d == 'vars' and node.args:
             return {'ObjAttrs'}
         if d == 'getattr' and len(node.args) >= 2 and isinstance(node.args[1], ast.Constant) and isinstance(node.args[1].value, str):
@@ -863,6 +886,24 @@ class Prov:
                 return out
         return {'Unknown'}
 
+    def _join_kinds(self, parts, qual):
+        """join(first, ...): a directory joined with a name is Resolved; otherwise the result lies wherever its first component lies."""
+        if any(isinstance(a, ast.Starred) for a in parts):
+            return {'Unknown'}
+        out = set()
+        for k in self._kinds(parts[0], qual):
+            if k in DIRKINDS or k == 'Resolved':
+                out.add('Resolved' if len(parts) > 1 else k)
+            elif k != 'NoneK':
+                out.add(k)
+        return out or {'NoneK'}
+
+    def _dirname_kinds(self, node, qual):
+        out = set()
+        for k in self._kinds(node, qual):
+            out.add('AdjDir' if k in ('Resolved', 'UserGiven') else k)
+        return out
+
     # -- sinks ----------------------------------------------------------------------------------------------------------------
     def sinks(self, quals):
         """[(qual, call node, sink name, path argument)] for filesystem calls in the given functions."""
@@ -874,6 +915,11 @@ class Prov:
                     d = dotted(n.func)
                     if d in SINKS and n.args:
                         out.append((q, n, d, n.args[0]))
+                    elif isinstance(n.func, ast.Attribute) and n.func.attr in PATH_SINK_METHODS and not (d or '').startswith(('os.', 're.', 'struct.')) \
+                            and not self.cg.callees(q, n):
+                        out.append((q, n, '<path>.' + n.func.attr, n.func.value))
+                    elif isinstance(n.func, ast.Attribute) and n.func.attr == 'open' and not n.args and not (d or '').startswith('os.') and not self.cg.callees(q, n):
+                        out.append((q, n, '<path>.open', n.func.value))
         out.sort(key=lambda t: (t[1].lineno, t[1].col_offset))
         return out
 
@@ -968,10 +1014,17 @@ class Prov:
             return all([rec(node.left), rec(node.right)])
         if isinstance(node, ast.Call):
             d = dotted(node.func)
-            if d in ('os.path.abspath', 'os.path.realpath'):
+            if d in ('os.path.abspath', 'os.path.realpath') or is_cwd_expr(node):
                 return self._leaf(node, sources, True)
-            if d == 'os.getcwd':
+            if isinstance(node.func, ast.Attribute) and node.func.attr in ('resolve', 'absolute') and not node.args and not self.attr_stores().get(node.func.attr):
                 return self._leaf(node, sources, True)
+            if d == 'map' and len(node.args) == 2:
+                if dotted(node.args[0]) in ('os.path.abspath', 'os.path.realpath'):
+                    return self._leaf(node, sources, True)
+                return self._leaf(node, sources, False)
+            if d in PATH_CTORS and node.args:
+                probe = []
+                return self._leaf(node, sources, self.is_abs(node.args[0], qual, probe, busy))
             if d == 'os.path.join' and node.args and not isinstance(node.args[0], ast.Starred):
                 # join(absolute, ...) is absolute whatever follows
                 probe = []
@@ -1048,40 +1101,89 @@ class Prov:
             return False
         if isinstance(node, ast.Call) and dotted(node.func) in ('os.path.exists', 'os.path.isfile') and node.args:
             ks = self.kinds(node.args[0], qual) - {'NoneK'}
-            return 'UserGiven' in ks and ks <= {'UserGiven', 'Resolved'}
+            return 'UserGiven' in ks
+        if isinstance(node, ast.Call) and isinstance(node.func, ast.Attribute) and node.func.attr in ('exists', 'is_file') and not node.args \
+                and not (dotted(node.func) or '').startswith('os.'):
+            ks = self.kinds(node.func.value, qual) - {'NoneK'}
+            return 'UserGiven' in ks
         if isinstance(node, ast.Name):
             defs = self.reaching(qual, node)
             return bool(defs) and all(h[0] == 'expr' and self.is_exists_test(v, qual, _depth + 1) for h, v in defs)
         return False
 
-    def implies_not_a_path(self, test, value, qual):
-        """`test` evaluating to the boolean `value` implies that the input is not an existing path."""
+    def _formula(self, test, qual, depth=0):
+        """Boolean formula of a test over the atom 'E' (the caller's own input names an existing file) and opaque atoms:
+        ('atom', name) | ('const', bool) | ('not', f) | ('and', [f]) | ('or', [f])."""
+        if isinstance(test, ast.Constant):
+            return ('const', bool(test.value))
         if isinstance(test, ast.UnaryOp) and isinstance(test.op, ast.Not):
-            return self.implies_not_a_path(test.operand, not value, qual)
+            return ('not', self._formula(test.operand, qual, depth))
         if isinstance(test, ast.BoolOp):
-            if isinstance(test.op, ast.Or) and value is False:       # every disjunct is false
-                return any(self.implies_not_a_path(v, False, qual) for v in test.values)
-            if isinstance(test.op, ast.And) and value is True:       # every conjunct is true
-                return any(self.implies_not_a_path(v, True, qual) for v in test.values)
-            return False
-        return value is False and self.is_exists_test(test, qual)
+            return ('and' if isinstance(test.op, ast.And) else 'or', [self._formula(v, qual, depth) for v in test.values])
+        if self.is_exists_test(test, qual):
+            return ('atom', 'E')
+        if isinstance(test, ast.Name) and qual is not None and depth < 6:
+            defs = self.reaching(qual, test)
+            if len(defs) == 1 and defs[0][0][0] == 'expr':
+                return self._formula(defs[0][1], qual, depth + 1)
+        return ('atom', unparse(test))
 
-    def on_source_string_branch(self, qual, node):
-        """`node` executes only when os.path.exists(<the caller's input>) was false (the input is a source *string*)."""
+    def cwd_guard(self, qual, node):
+        """Is `node` executed only when os.path.exists(<the caller's input>) is false (the input is a source *string*)?
+        'guarded' | 'unguarded' (decided over fully understood conditions) | 'unknown' (the conditions involve opaque tests)."""
         fn = self.fn_of(qual)
+        constraints = []
         child = node
         p = getattr(node, '_parent', None)
         while p is not None and p is not fn:
             if isinstance(p, ast.If):
-                if any(child is s for s in p.body) and self.implies_not_a_path(p.test, True, qual):
-                    return True
-                if any(child is s for s in p.orelse) and self.implies_not_a_path(p.test, False, qual):
-                    return True
-            if isinstance(p, ast.IfExp):
-                if child is p.body and self.implies_not_a_path(p.test, True, qual):
-                    return True
-                if child is p.orelse and self.implies_not_a_path(p.test, False, qual):
-                    return True
+                if any(child is x for x in p.body):
+                    constraints.append((self._formula(p.test, qual), True))
+                elif any(child is x for x in p.orelse):
+                    constraints.append((self._formula(p.test, qual), False))
+            elif isinstance(p, ast.IfExp):
+                if child is p.body:
+                    constraints.append((self._formula(p.test, qual), True))
+                elif child is p.orelse:
+                    constraints.append((self._formula(p.test, qual), False))
+            elif isinstance(p, ast.BoolOp) and child is not p.values[0]:
+                # `a or b`: b runs only when a is false; `a and b`: only when a is true
+                idx = [i for i, x in enumerate(p.values) if x is child][0]
+                for prev in p.values[:idx]:
+                    constraints.append((self._formula(prev, qual), isinstance(p.op, ast.And)))
             child = p
             p = getattr(p, '_parent', None)
-        return False
+        if not constraints:
+            return 'unguarded'
+        atoms = []
+
+        def collect(f):
+            if f[0] == 'atom' and f[1] not in atoms:
+                atoms.append(f[1])
+            elif f[0] == 'not':
+                collect(f[1])
+            elif f[0] in ('and', 'or'):
+                for x in f[1]:
+                    collect(x)
+        for f, _ in constraints:
+            collect(f)
+        if len(atoms) > 10:
+            return 'unknown'
+
+        def ev(f, env):
+            if f[0] == 'atom':
+                return env[f[1]]
+            if f[0] == 'const':
+                return f[1]
+            if f[0] == 'not':
+                return not ev(f[1], env)
+            vals = [ev(x, env) for x in f[1]]
+            return all(vals) if f[0] == 'and' else any(vals)
+        violated = False
+        for bits in range(1 << len(atoms)):
+            env = {a: bool(bits >> i & 1) for i, a in enumerate(atoms)}
+            if all(ev(f, env) == v for f, v in constraints) and env.get('E', True):
+                violated = True
+        if not violated:
+            return 'guarded'
+        return 'unguarded' if set(atoms) <= {'E'} else 'unknown'
